@@ -1433,7 +1433,10 @@ class SpecAPI(object):
         return getattr(self.world.builtins, 'x_statistics_' + a[0])(it, [a[1]], {})
 
     def s_wildcard_match(self, it, a, k):
-        return self.world.builtins.x_fnmatch_fnmatch(it, [a[0], a[1]], {})
+        # "* and ? are the only wildcards", stated over the assumed library contract of fnmatch: the pattern with fnmatch's character
+        # classes switched off ('[' written as the one-character class '[[]'); natively the spec is an independent regex translation
+        pattern = self.world.builtins.str_method(it, a[1], 'replace', ['[', '[[]'], {})
+        return self.world.builtins.x_fnmatch_fnmatch(it, [a[0], pattern], {})
 
     def s_acot(self, it, a, k):
         return self.world.builtins.libm(it, 'acot', a)
